@@ -15,6 +15,7 @@ package models
 //@   loop 1 invariant forall(k, 0, rangeindex + 1, r.Replicas[k] != nodeID)
 //@ end
 //@ func ShardAssignment.AddReplica
+//@   regions
 //@   prop C18
 //@   arith math
 //@   requires s.Shards != nil && all(k, "ShardID", has(s.Shards, k) ==> s.Shards[k] != nil)
